@@ -3,20 +3,19 @@
 package gtree
 
 import (
-	"bufio"
 	"io"
 )
 
 type rootGenerator struct {
 	counter       *counter
-	scanner       *bufio.Scanner
+	scanner       *lineScanner
 	nodeGenerator *nodeGenerator
 }
 
 func newRootGenerator(r io.Reader) *rootGenerator {
 	return &rootGenerator{
 		counter:       newCounter(),
-		scanner:       bufio.NewScanner(r),
+		scanner:       newLineScanner(r),
 		nodeGenerator: newNodeGenerator(),
 	}
 }
